@@ -1,0 +1,23 @@
+//! Verification hooks (compiled only with `--cfg litep2p_verif`).
+//!
+//! Re-exports of items that are `pub` inside crate-private modules plus small
+//! constructors/accessors the out-of-tree conformance harness needs. Nothing in
+//! here changes the behaviour of the library.
+
+pub mod kad {
+    pub use crate::protocol::libp2p::kademlia::verif::*;
+}
+
+pub mod addr {
+    pub use crate::transport::manager::address::{scores, AddressRecord, AddressStore};
+
+    /// Score of an address record (the in-tree accessor is `cfg(test)`).
+    pub fn record_score(record: &AddressRecord) -> i32 {
+        record.verif_score()
+    }
+
+    /// `(address, score)` pairs of a store, unordered.
+    pub fn dump(store: &AddressStore) -> Vec<(multiaddr::Multiaddr, i32)> {
+        store.addresses.iter().map(|(a, r)| (a.clone(), r.verif_score())).collect()
+    }
+}
